@@ -345,6 +345,9 @@ impl Property for C19 {
             Tier::Thorough => Budget { cases: 400, shards: 16, min_len: 12, max_len: 60 },
         }
     }
+    fn fuzz_targets(&self) -> Vec<(&'static str, u64, usize)> {
+        vec![("search_files", 600_000, 600)]
+    }
     fn rule(&self) -> String {
         "bytes -> write history (writer created on an ordinary day or 3 s before UTC midnight, 1-8 written seconds with gaps 1..7 s / 61 s / a day, 1-4 items per second over 3 resources incl. one whose name contains the separator, single_file_max_size in {1,120,250,400,100000}, max_file_count 1..4), fresh searcher per query or one reused; queries are enumerated exhaustively per history: every (begin, end, resource | \"\") over the written seconds (plus begin one second earlier, end beyond the last) and every (begin, max_lines 1..2*items); crash points = prefixes of the journalled byte stream the writer issued (file creations/removals, index-entry bytes, line bytes in program order): every operation boundary, every interior byte of every index entry and sampled (quick: 24 per history, thorough: all) interior line bytes; oracle: physical placement and retention from the journal, semantics from the statement; non-trivial = history spans >= 2 files and (crash mode) some cut falls inside an index entry or a line; distinct = distinct decoded histories".into()
     }
